@@ -245,9 +245,67 @@ def build_g() -> dict:
     return g
 
 
+# ------------------------------------------------------------------------------------------------ renderings of the G seeds
+# Alternative, equally valid renderings of the containers of the G seeds ("<seed>~<variant>"): what the container formats leave
+# to the writer.  Compound files: the spelling of the entry names (they compare case-insensitively, [MS-CFB] 2.6.4; the
+# property-set streams keep their \x05 prefix), the major version (3 = 512-byte, 4 = 4096-byte sectors) and the shape of the
+# directory tree (balanced red-black tree / degenerate list).  ZIP packages: the spelling of the member names (OPC part names
+# are case-insensitive; for ODF / EPUB a respelled package is a damaged one - still bytes an extractor must survive).
+# A variant carries the same views as its base seed, so every container-aware operator applies to it unchanged.
+SPELLINGS = {"upper": str.upper, "lower": str.lower, "swap": str.swapcase}
+CFB_RENDERINGS = {"v4": {"version": 4}, "list": {"dir_layout": "list"}}
+VARIANTS_QUICK = ["upper", "lower", "v4"]
+VARIANTS_THOROUGH = ["upper", "lower", "swap", "v4", "list"]
+
+
+def _respell_path(path: str, f) -> str:
+    return "/".join(f(p) for p in path.split("/"))
+
+
+def build_variants() -> dict:
+    """name~variant -> seed dict (as build_g) for every G seed with a "cfb", "shell" or "zip" view x VARIANTS_THOROUGH"""
+    if "v" in _CACHE:
+        return _CACHE["v"]
+    g = build_g()
+    v: dict = {}
+    for name, s in g.items():
+        if name == "zip":
+            continue            # a plain archive: its member names are payload routing, covered by the routing family
+        for var in VARIANTS_THOROUGH:
+            f = SPELLINGS.get(var)
+            if "cfb" in s:
+                streams, o = s["cfb"]
+                if f is not None:
+                    st2 = {_respell_path(k, f): d for k, d in streams.items()}
+                    o2 = dict(o, clsid={_respell_path(k, f): c for k, c in (o.get("clsid") or {}).items()})
+                    rec = {_respell_path(k, f): r for k, r in s.get("rec", {}).items()}
+                else:
+                    st2, o2, rec = dict(streams), dict(o, **CFB_RENDERINGS[var]), dict(s.get("rec", {}))
+                v[f"{name}~{var}"] = dict(s, data=cfb.cfb(st2, o2), cfb=(st2, o2), rec=rec, variant_of=name, variant=var)
+            elif "shell" in s and f is None:
+                o2 = dict(CFB_RENDERINGS[var])
+                v[f"{name}~{var}"] = dict(s, data=cfb.ooxml_encrypted_shell(opts=o2), shell_opts=o2, variant_of=name, variant=var)
+            elif "zip" in s and f is not None:
+                ms = [dict(m, name=_respell_path(m["name"], f)) for m in s["zip"]]
+                if [m["name"] for m in ms] == [m["name"] for m in s["zip"]]:
+                    continue
+                data = rezip(ms)
+                if any(x["variant_of"] == name and x["data"] == data for x in v.values()):
+                    continue            # e.g. swapcase of all-lower-case names is the upper-case rendering
+                v[f"{name}~{var}"] = dict(s, data=data, zip=ms, variant_of=name, variant=var)
+    _CACHE["v"] = v
+    return v
+
+
+def seed(name: str) -> dict:
+    """the G seed or seed variant of that name"""
+    g = build_g()
+    return g[name] if name in g else build_variants()[name]
+
+
 def path_ext(name: str) -> str:
     """file extension used for a G seed path (tgz seeds are named .tar.gz)"""
-    return "tar.gz" if name == "tgz" else build_g()[name]["ext"]
+    return "tar.gz" if name.split("~")[0] == "tgz" else seed(name)["ext"]
 
 
 # ------------------------------------------------------------------------------------------------ the fixtures F
